@@ -1003,6 +1003,7 @@ impl Prop for C15 {
         let k = (v[0].clone_at.unwrap_or(0) as usize).min(plain.a.items.len());
         let b = match &with_clone.b {
             Some(b) => b,
+            None if v[0].clone_at.is_none() => return Verdict::Ok { nontrivial: false },
             None => return Verdict::Bad("no clone run in the trace".into()),
         };
         if b.items[..] != plain.a.items[k..] || b.log != plain.a.log || b.after_none != 0 {
@@ -1039,6 +1040,9 @@ pub fn all_props() -> Vec<Box<dyn Prop>> {
         Box::new(C10),
         Box::new(C14),
         Box::new(C15),
+        Box::new(crate::props2::C02),
+        Box::new(crate::props2::C11b),
+        Box::new(crate::props2::C13),
     ]
 }
 
